@@ -7,7 +7,7 @@ Correspondence: every case calls the real `visualize_graph` / `visualize_bigraph
   spec line -> the Lean specification (SkNet/Spec/Xml.lean: recogniser of well-formed XML; SkNet/Spec/Svg.lean:
                expected node shapes / edge paths / displayed names, stated from the input alone) evaluated on the
                string the implementation returned; a real XML parser (expat) must accept the string too;
-  spec_same -> the file written with `filename` (decoded as UTF-8) is the returned string.
+  spec_file -> the bytes of the file written with `filename`, decoded by the Lean UTF-8 decoder, are the returned string.
 Theorems (SkNet/Properties/C20.lean) tie model and specification for every input.
 """
 import os
@@ -208,9 +208,10 @@ def call_impl(f, kwargs, with_file):
     if path is not None:
         try:
             with open(path + '.svg', 'rb') as fh:
-                content = fh.read().decode('utf-8', errors='surrogatepass')
-        except Exception as e:  # the file is missing or unreadable: reported through spec_same
-            content = 'UNREADABLE ' + repr(e)
+                content = fh.read()
+        except Exception:  # the file is missing or unreadable: reported through spec_file
+            content = b'\xff'
+
         try:
             os.remove(path + '.svg')
         except OSError:
@@ -512,7 +513,7 @@ def _mk_case(cmd, entry, desc, toks, ans, doc, content, spec=True):
     nontrivial = ('<path' in doc) or any(c in NEEDS_SANITISING for nm in _all_names(desc) for c in nm)
     cases.append(Case((cmd, args), sig, run, impl, spec_line, nontrivial, desc, canon='doc'))
     if content is not None:
-        same = 'c20.spec_same doc=%s file=%s' % (enc_doc(doc), enc_doc(content))
+        same = 'c20.spec_file doc=%s bytes=%s' % (enc_doc(doc), ','.join(str(b) for b in content) or '-')
         cases.append(Case((cmd, args, 'file'), dict(sig, clause='file'), None, 'ok', same, True, desc))
     return cases
 
